@@ -6,7 +6,7 @@ def _c13(res):
     res.assumptions += ["Go int modelled as unbounded Int", "go2lean subset as in DESIGN Appendix D"]
     rec.run_rec_property(
         res, "uuid", "Gvlean.Props.C13",
-        ["Props.c13", "Props.c13_grammar", "Props.c13_no_panic", "Props.c13_length"],
+        ["Props.c13", "Props.c13_grammar", "Props.c13_no_panic", "Props.c13_length", "Props.c13_case"],
         nontrivial=lambda f, r: len(r[1]) == 72)
 
 
@@ -19,7 +19,17 @@ def _c12(res):
         nontrivial=lambda f, r: "3a" in r[1])
 
 
+def _c11(res):
+    res.assumptions += ["Go int modelled as unbounded Int", "go2lean subset as in DESIGN Appendix D",
+                        "UTF-8 decoding of `for range` modelled by Gvlean/Go/Utf8.lean (validated by corr-rec utf8 lines in C03)"]
+    rec.run_rec_property(
+        res, "email", "Gvlean.Props.C11",
+        ["Props.c11", "Props.c11_no_panic", "Props.c11_length", "Props.c11_non_ascii"],
+        nontrivial=lambda f, r: "40" in [r[1][i:i + 2] for i in range(0, len(r[1]), 2)] and len(r[1]) >= 10)
+
+
 TABLE = {
+    "C11": {"run": _c11, "replay": rec.replay, "level": "proof"},
     "C12": {"run": _c12, "replay": rec.replay, "level": "proof"},
     "C13": {"run": _c13, "replay": rec.replay, "level": "proof"},
 }
